@@ -96,34 +96,62 @@ theorem kill_clears_runner (P : Lifecycle.Params) (s s1 s2 : State) (a b : Bool)
     · simp only [Option.some.injEq] at h2; subst h2; simp [emit]
     · simp at h2
 
+/-- **A launch that failed inside a custom runner's `Start` after the runner had created the process is still ended by
+Kill**: `runner.Kill` is called and the process is gone when Kill returns (at once). -/
+theorem failed_runner_start_is_killed (P : Params) (hP : P.Good) :
+    (killStartFailed P).returns = true ∧ (killStartFailed P).forced = true ∧ (killStartFailed P).procDead = true ∧
+    (killStartFailed P).boundMs = 0 := by
+  simp [killStartFailed, hP.2.2.2.2.2.2.2]
+
+/-- **A busy plugin is allowed to finish its clean-up too**: with a request still in flight when Kill is called, a gRPC
+plugin whose own clean-up fits in the grace period is not force-killed. -/
+theorem busy_plugin_finishes_cleanup (P : Params) (hP : P.Good) (cleanupMs : Nat) (hc : cleanupMs < 2000) :
+    (killBusy P cleanupMs).forced = false ∧ (killBusy P cleanupMs).cleanedUp = true ∧ (killBusy P cleanupMs).procDead = true ∧
+    (killBusy P cleanupMs).exitedFlag = true := by
+  obtain ⟨h1, h2, h3, h4, h5, h6, h7, h8, h9⟩ := hP
+  simp [killBusy, h1, h9, hc, h5]
+
 /-! ### Witnesses -/
 
-def pGood : Params := ⟨2000, true, true, true, true, true, true⟩
+/-- if the Shutdown handler lets in-flight requests drain first, the plugin's clean-up starts late and a clean-up of one
+second is cut short by the force kill -/
+theorem drain_first_witness :
+    (killBusy ⟨2000, true, true, true, true, true, true, true, false⟩ 1000).forced = true ∧
+    (killBusy ⟨2000, true, true, true, true, true, true, true, false⟩ 1000).cleanedUp = false := by decide
+
+
+/-- if `Start` records the runner only once `runner.Start` has succeeded, Kill after such a failed launch finds nothing to
+kill and the process the runner created runs on -/
+theorem runner_dropped_witness :
+    (killStartFailed ⟨2000, true, true, true, true, true, true, false, true⟩).procDead = false := by decide
+
+
+def pGood : Params := ⟨2000, true, true, true, true, true, true, true, true⟩
 
 /-- D3: a gRPC plugin frozen with SIGSTOP: without a deadline on the shutdown RPC, Kill never returns. -/
-theorem frozen_grpc_witness : (kill ⟨2000, true, false, true, true, true, true⟩ .grpc .frozen false true true).returns = false := by decide
+theorem frozen_grpc_witness : (kill ⟨2000, true, false, true, true, true, true, true, true⟩ .grpc .frozen false true true).returns = false := by decide
 
 /-- net/rpc: the plugin exits as soon as it has handled Quit; if the lost reply counts as a failed close,
 a plugin that is exiting on its own is force-killed at once and may not finish its cleanup. -/
 theorem lost_reply_witness :
-    (kill ⟨2000, true, true, false, true, true, true⟩ .netrpc .exitsFast true true true).forced = true ∧
-    (kill ⟨2000, true, true, false, true, true, true⟩ .netrpc .exitsFast true true true).cleanedUp = false := by decide
+    (kill ⟨2000, true, true, false, true, true, true, true, true⟩ .netrpc .exitsFast true true true).forced = true ∧
+    (kill ⟨2000, true, true, false, true, true, true, true, true⟩ .netrpc .exitsFast true true true).cleanedUp = false := by decide
 
 /-- without the force-kill after the grace period an ignoring plugin survives Kill -/
-theorem no_force_witness : (kill ⟨2000, false, true, true, true, true, true⟩ .grpc .ignores false true true).procDead = false := by decide
+theorem no_force_witness : (kill ⟨2000, false, true, true, true, true, true, true, true⟩ .grpc .ignores false true true).procDead = false := by decide
 
 /-- with the runner reference dropped in `Kill`'s first lock section, an overlapping `Kill` returns at once while the
 plugin is still alive (and `Exited()` is false) -/
 theorem early_clear_witness :
-    (killDuring ⟨2000, true, true, true, true, false, true⟩ .grpc .ignores false true true).returns = true ∧
-    (killDuring ⟨2000, true, true, true, true, false, true⟩ .grpc .ignores false true true).procDead = false := by decide
+    (killDuring ⟨2000, true, true, true, true, false, true, true, true⟩ .grpc .ignores false true true).returns = true ∧
+    (killDuring ⟨2000, true, true, true, true, false, true, true, true⟩ .grpc .ignores false true true).procDead = false := by decide
 
 /-- with keep-alive switched off on the host's yamux session nothing ever ends the `Control.Quit` call to a frozen
 net/rpc plugin: `Kill` does not return -/
-theorem no_keepalive_witness : (kill ⟨2000, true, true, true, true, true, false⟩ .netrpc .frozen false true true).returns = false := by decide
+theorem no_keepalive_witness : (kill ⟨2000, true, true, true, true, true, false, true, true⟩ .netrpc .frozen false true true).returns = false := by decide
 
 /-- a longer grace period is a longer bound -/
-theorem grace_bound_witness : (kill ⟨200000, true, true, true, true, true, true⟩ .grpc .ignores false true true).boundMs = 200000 := by decide
+theorem grace_bound_witness : (kill ⟨200000, true, true, true, true, true, true, true, true⟩ .grpc .ignores false true true).boundMs = 200000 := by decide
 
 /-! ### Non-vacuity -/
 example : kill pGood .netrpc .exitsFast true true true = ⟨true, false, true, true, true, 2000⟩ := by decide
